@@ -7,8 +7,8 @@ import (
 	"path/filepath"
 	"testing"
 
-	"verif/harness/evid"
 	_ "pgregory.net/rapid"
+	"verif/harness/evid"
 )
 
 func TestMain(m *testing.M) {
